@@ -789,7 +789,9 @@ def _trust_ncg(
 
         # if the ratio is high enough then accept the proposed step
         f_kp1, x_kp1, g_kp1, g_kp1_mag = where(
-            rho > eta, (f_kp1, x_kp1, g_kp1, g_kp1_mag), (f_k, x_k, g_k, g_k_mag)
+            (rho > eta) & (pred_reduction > 0),
+            (f_kp1, x_kp1, g_kp1, g_kp1_mag),
+            (f_k, x_k, g_k, g_k_mag),
         )
 
         # Check whether we arrived at the float precision
